@@ -240,6 +240,37 @@ func cl(b []byte, alt bool) []byte {
 	return o
 }
 
+// clArena clones the arguments of one call. alt: each in memory of its own with
+// capacity == length. Otherwise all of them lie back to back in one array (in a
+// rotated order), each slice's capacity running on over the arguments behind it: a
+// caller that keeps secret, message and additional data in one buffer. A callee that
+// appends to one argument "because there is room" then overwrites the next one.
+func clArena(alt bool, parts ...[]byte) [][]byte {
+	out := make([][]byte, len(parts))
+	if alt {
+		for i, b := range parts {
+			out[i] = cl(b, true)
+		}
+		return out
+	}
+	total := 0
+	for _, b := range parts {
+		total += len(b)
+	}
+	arena := make([]byte, total, total+24)
+	for i := total; i < cap(arena); i++ {
+		arena[:cap(arena)][i] = 0xEE
+	}
+	off := 0
+	for k := range parts {
+		i := (k + total) % len(parts)
+		copy(arena[off:], parts[i])
+		out[i] = arena[off : off+len(parts[i])]
+		off += len(parts[i])
+	}
+	return out
+}
+
 // ---------- golib call wrappers (type combinations, clones, guards) ----------
 
 // combo bits: 1 = first argument as string, 2 = secret as string,
@@ -277,7 +308,8 @@ type sut struct{ c *ev.Case }
 
 func (t sut) encrypt(p, s []byte, combo int) (out []byte, err error, ok bool) {
 	alt := combo&8 != 0
-	pc, sc := cl(p, alt), cl(s, alt)
+	ar := clArena(alt, p, s)
+	pc, sc := ar[0], ar[1]
 	ok = t.c.Guard("Encrypt", func() {
 		switch combo & 3 {
 		case 0:
@@ -296,7 +328,8 @@ func (t sut) encrypt(p, s []byte, combo int) (out []byte, err error, ok bool) {
 
 func (t sut) decrypt(ct, s []byte, combo int) (out []byte, err error, ok bool) {
 	alt := combo&8 != 0
-	cc, sc := cl(ct, alt), cl(s, alt)
+	ar := clArena(alt, ct, s)
+	cc, sc := ar[0], ar[1]
 	ok = t.c.Guard("Decrypt", func() {
 		switch combo & 3 {
 		case 0:
@@ -319,7 +352,8 @@ func (t sut) decrypt(ct, s []byte, combo int) (out []byte, err error, ok bool) {
 
 func (t sut) rawCBCEnc(p, s []byte, combo int) (out []byte, err error, ok bool) {
 	alt := combo&8 != 0
-	pc, sc := cl(p, alt), cl(s, alt)
+	ar := clArena(alt, p, s)
+	pc, sc := ar[0], ar[1]
 	ok = t.c.Guard("SaltBySecretCBCEncrypt", func() {
 		switch combo & 3 {
 		case 0:
@@ -339,7 +373,8 @@ func (t sut) rawCBCEnc(p, s []byte, combo int) (out []byte, err error, ok bool) 
 // rawCBCDec: combo bit 2 = secret as string, bit 1 = reuseCipherText.
 func (t sut) rawCBCDec(raw, s []byte, combo int) (out []byte, err error, ok bool) {
 	alt := combo&8 != 0
-	rc, sc := cl(raw, alt), cl(s, alt)
+	ar := clArena(alt, raw, s)
+	rc, sc := ar[0], ar[1]
 	reuse := combo&1 != 0
 	ok = t.c.Guard("SaltBySecretCBCDecrypt", func() {
 		if combo&2 != 0 {
@@ -358,7 +393,8 @@ func (t sut) rawCBCDec(raw, s []byte, combo int) (out []byte, err error, ok bool
 
 func (t sut) gcmEncrypt(p, s, a []byte, combo int) (out []byte, err error, ok bool) {
 	alt := combo&8 != 0
-	pc, sc, ac := cl(p, alt), cl(s, alt), cl(a, alt)
+	ar := clArena(alt, p, s, a)
+	pc, sc, ac := ar[0], ar[1], ar[2]
 	ok = t.c.Guard("GCMEncrypt", func() {
 		switch combo & 7 {
 		case 0:
@@ -385,7 +421,8 @@ func (t sut) gcmEncrypt(p, s, a []byte, combo int) (out []byte, err error, ok bo
 
 func (t sut) gcmDecrypt(ct, s, a []byte, combo int) (out []byte, err error, ok bool) {
 	alt := combo&8 != 0
-	cc, sc, ac := cl(ct, alt), cl(s, alt), cl(a, alt)
+	ar := clArena(alt, ct, s, a)
+	cc, sc, ac := ar[0], ar[1], ar[2]
 	ok = t.c.Guard("GCMDecrypt", func() {
 		switch combo & 7 {
 		case 0:
@@ -416,7 +453,8 @@ func (t sut) gcmDecrypt(ct, s, a []byte, combo int) (out []byte, err error, ok b
 
 func (t sut) rawGCMEnc(p, s, a []byte, combo int) (out []byte, err error, ok bool) {
 	alt := combo&8 != 0
-	pc, sc, ac := cl(p, alt), cl(s, alt), cl(a, alt)
+	ar := clArena(alt, p, s, a)
+	pc, sc, ac := ar[0], ar[1], ar[2]
 	ok = t.c.Guard("SaltBySecretGCMEncrypt", func() {
 		switch combo & 7 {
 		case 0:
@@ -444,7 +482,8 @@ func (t sut) rawGCMEnc(p, s, a []byte, combo int) (out []byte, err error, ok boo
 // rawGCMDec: combo bit 1 = reuseCipherText, 2 = secret as string, 4 = ad as string.
 func (t sut) rawGCMDec(raw, s, a []byte, combo int) (out []byte, err error, ok bool) {
 	alt := combo&8 != 0
-	rc, sc, ac := cl(raw, alt), cl(s, alt), cl(a, alt)
+	ar := clArena(alt, raw, s, a)
+	rc, sc, ac := ar[0], ar[1], ar[2]
 	reuse := combo&1 != 0
 	ok = t.c.Guard("SaltBySecretGCMDecrypt", func() {
 		switch (combo >> 1) & 3 {
